@@ -467,12 +467,24 @@ def run(ctx):
         c.update({"kind": "caps", "methods": ["ps2", "pc"], "criteria": ["fixed", "both"], "imag": [False, True], "step": 0.05, "nsteps": 3,
                   "extra": None if i % 2 == 0 else [rng.randrange(0, 3) for _ in range(c["n"])]})
         add(c)
+    # SCALE / homogeneity stream: the norm of the state in the tensors (1e-12 .. 1e6, real and complex) or in coeff, normalize=False,
+    # a step with step*||H|| = 8 (local Krylov spaces need more than 7 vectors) and a small one, every scheme, real and imaginary time
+    scales = [["tensor", [1.0, 0.0]], ["tensor", [1e-12, 0.0]], ["tensor", [1e-9, 0.0]], ["tensor", [1e-6, 0.0]], ["tensor", [1e6, 0.0]],
+              ["tensor", [0.6e-9, 0.8e-9]], ["coeff", [1e-9, 0.0]], ["coeff", [0.0, 1e6]]]
+    for i in range(2 if quick else 6):
+        c = gen_tree_case(rng, 0, n=6, shape=["binary", "random", "comb"][i % 3], kind="spin", max_dofs=6, allow_dummy=False)
+        c.update({"kind": "scale", "methods": ["ps", "ps2"], "imag": [False, True], "xbig": 8.0, "small": 0.05, "scales": scales})
+        add(c)
+        if i % 2 == 0:
+            c2 = dict(c)
+            c2.update({"methods": ["pc", "vmf"], "xbig": None, "scales": [scales[0], scales[2], scales[4], scales[5], scales[6], scales[7]]})
+            add(c2)
     # one case per process (start-up ~3 s each); generous time-out: a loaded machine must not look like a hang
     shards = [{"seed": ctx.seed, "cases": [c]} for c in ocases]
     ores = ctx.impl_par("c12_oracle.py", shards, timeout=3000, par=16)
     oracle_fail = []
     oracle_runs = 0
-    ostats = {"exact": 0, "small": 0, "chain": 0, "aux": 0, "coeff": 0, "run": 0, "caps": 0}
+    ostats = {"exact": 0, "small": 0, "chain": 0, "aux": 0, "coeff": 0, "run": 0, "caps": 0, "scale": 0}
     worst = {}
     regimes = {"exact_complete": 0, "second_order_after_bond_shrink": 0}
     ratios = {}
@@ -485,6 +497,8 @@ def run(ctx):
             oracle_runs += 1
             ostats[item["kind"]] += 1
             st = item.get("stats", {})
+            for k_, v_ in (st.get("hom") or {}).items():
+                worst["scale:hom:" + k_.split("/")[0]] = max(worst.get("scale:hom:" + k_.split("/")[0], 0.0), v_)
             for k_, v_ in (st.get("errs") or {}).items():
                 mx = max(v_) if isinstance(v_, list) else v_
                 key = item["kind"] + ":" + k_.split("/")[0] + ("/history" if k_.endswith("history") else "")
